@@ -113,7 +113,7 @@ def same(a: t.Any, b: t.Any, path: str = '$') -> t.Optional[str]:
         if a.as_tuple() != b.as_tuple():
             return f"{path}: {a!r} != {b!r}"
         return None
-    if tb in (list, tuple, collections.deque, MySeq):
+    if tb in (list, tuple, collections.deque, MySeq) or isinstance(b, (list, tuple)):   # (subclasses too: spy containers kept at Any positions)
         if len(a) != len(b):
             return f"{path}: length {len(a)} != {len(b)}"
         for (i, (x, y)) in enumerate(zip(a, b)):
